@@ -36,7 +36,9 @@ Location = tuple[Union[str, int, "Location"], ...]
 
 
 # This is use for pretty printing paths with shorthand notation where possible.
-RE_PROPERTY = re.compile(r"[\u0080-\uFFFFa-zA-Z_][\u0080-\uFFFFa-zA-Z0-9_-]*")
+# A property is a word, as the expression tokenizer reads words, that does not start
+# with a digit.
+RE_PROPERTY = re.compile(r"[^\W\d][\w\-]*")
 
 
 def _is_shorthand(segment: str) -> bool:
